@@ -421,3 +421,99 @@ def stale_with_fee_overdraft(rng: random.Random, asset: str = "AAA") -> Dict[str
     over = bought + Decimal(rng.choice((1, 2, "0.5")))
     b.dispose(t + timedelta(days=rng.randint(5, 400)), over, rng.randint(50, 500), cout_wf=dstr(bought / 2))
     return b.done(rng)
+
+
+def in_fee_overdraft(rng: random.Random, asset: str = "AAA") -> Dict[str, Any]:
+    """Parser-path family (C08): an acquisition whose crypto fee exceeds what it brings in plus what its account holds. The
+    fee is a debit like any other (RP2 models it as a fee-typed out-transaction), lots held on another account cover it, so
+    only the balance replay can reject it. Variants: nothing follows / the account is refilled later / a later disposal
+    from the refilled account."""
+    b = HB(asset=asset, exchanges=EXCHANGES[:2], holders=HOLDERS[:1])
+    ho = HOLDERS[0]
+    t = T(rng.randint(2016, 2022), rng.randint(1, 12), rng.randint(1, 28))
+    b.acquire(t, rng.choice((10, 4, "2.5")), rng.randint(50, 500), ex=EXCHANGES[0])
+    t += timedelta(days=rng.randint(3, 200))
+    held = Decimal(0)
+    if rng.random() < 0.4:
+        held = Decimal(rng.choice(("0.1", "0.25")))
+        b.move(t, held, held, rng.randint(50, 500), (EXCHANGES[0], ho), (EXCHANGES[1], ho))
+        t += timedelta(days=rng.randint(1, 50))
+    cin = Decimal(rng.choice(("0.5", "0.2", "0.01")))
+    fee = cin + held + Decimal(rng.choice(("0.3", "0.001", "0.000001")))
+    b.acquire(t, cin, rng.randint(50, 500), ex=EXCHANGES[1], ttype=rng.choice(("BUY", "INTEREST")), cfee=dstr(fee))
+    variant = rng.randrange(3)
+    if variant:
+        t += timedelta(days=rng.randint(1, 90))
+        b.acquire(t, 3, rng.randint(50, 500), ex=EXCHANGES[1])
+        if variant == 2:
+            b.dispose(t + timedelta(days=rng.randint(1, 90)), 1, rng.randint(50, 500), ex=EXCHANGES[1])
+    return b.done(rng)
+
+
+def share_transfer_ids(hist: Dict[str, Any], rng: random.Random) -> int:
+    """Batched withdrawals: several transfer rows carry the same unique id (one on-chain transaction hash covers them all).
+    Rewrites the history in place; returns the number of transfer rows that now repeat the id of another transfer between the
+    same ordered pair of accounts."""
+    groups: Dict[Tuple[str, str, str, str], List[Dict[str, Any]]] = {}
+    for r in hist["rows"]:
+        if r["t"] == "INTRA":
+            groups.setdefault((r["fex"], r["fho"], r["tex"], r["tho"]), []).append(r)
+    repeated = 0
+    for rows in groups.values():
+        if len(rows) > 1 and rng.random() < 0.8:
+            for r in rows[1:]:
+                r["uid"] = rows[0]["uid"]
+                repeated += 1
+    if not repeated:
+        intra = [r for r in hist["rows"] if r["t"] == "INTRA"]
+        for r in intra[1:]:
+            r["uid"] = intra[0]["uid"]  # same hash, different accounts
+    return repeated
+
+
+def batched_transfers(rng: random.Random, asset: str = "AAA") -> Dict[str, Any]:
+    """One withdrawal split by the exchange into 2-4 transfer rows with the same unique id between the same two accounts (same
+    instant or minutes apart, equal or different amounts), then a disposal from the receiving account that needs all of them."""
+    b = HB(asset=asset, exchanges=EXCHANGES[:3], holders=HOLDERS[:1])
+    ho = HOLDERS[0]
+    t = T(rng.randint(2016, 2022), rng.randint(1, 12), rng.randint(1, 28), rng.randint(0, 23))
+    b.acquire(t, 20, rng.randint(50, 500), ex=EXCHANGES[0])
+    t += timedelta(days=rng.randint(1, 100))
+    n = rng.randint(2, 4)
+    amount = Decimal(rng.choice(("1", "2.5", "0.3")))
+    total = Decimal(0)
+    for k in range(n):
+        sent = amount if rng.random() < 0.5 else amount + Decimal(k) / 10
+        fee = Decimal(rng.choice(("0", "0", "0.001")))
+        row = b.move(t, sent, sent - fee, rng.randint(50, 500), (EXCHANGES[0], ho), (EXCHANGES[1], ho))
+        row["uid"] = f"{asset}-batch"
+        total += sent - fee
+        if rng.random() < 0.5:
+            t += timedelta(minutes=rng.randint(1, 30))
+    b.dispose(t + timedelta(days=rng.randint(1, 300)), total, rng.randint(50, 500), ex=EXCHANGES[1])
+    return b.done(rng, shuffle=rng.random() < 0.5)
+
+
+def nearly_equal_prices(rng: random.Random) -> Dict[str, Any]:
+    """2-4 lots whose spot prices agree to 16-17 significant digits and differ in the 11th decimal (8-digit integer part): exact
+    decimals tell them apart, binary doubles do not. The lot a price-ranked method prefers is never the oldest."""
+    b = HB()
+    t = T(rng.randint(2016, 2021), rng.randint(1, 12), rng.randint(1, 28))
+    base = Decimal(rng.randint(1_000_000, 9_999_999)) + Decimal(rng.randint(0, 10**11 - 10)) / Decimal(10**11)
+    n = rng.randint(2, 4)
+    steps = list(range(n))
+    if rng.random() < 0.5:
+        steps.reverse()  # prices rise with age or fall with age: one of HIFO / LOFO must pass over the oldest lot
+    amounts = [rand_amount(rng, "small") for _ in steps]
+    for step, amount in zip(steps, amounts):
+        b.acquire(t, amount, base + Decimal(step) * Q11)
+        t += timedelta(days=rng.randint(1, 40))
+    held = sum(amounts, Decimal(0))
+    for _ in range(rng.randint(1, 3)):
+        t += timedelta(days=rng.randint(1, 30))
+        part = q11(held * Decimal(rng.randint(5, 45)) / 100)
+        if part <= 0:
+            break
+        b.dispose(t, part, rng.randint(50, 500), ttype=rng.choice(OUT_TYPES))
+        held -= part
+    return b.done(rng, shuffle=rng.random() < 0.5)
